@@ -11,6 +11,19 @@ def load(prop_id):
     return importlib.import_module('mc.props.%s' % prop_id.lower())
 
 
+def replay_unit(mod, body):
+    """Replays the operation sequence of one unit (history-dependent violations)."""
+    case = body['case']
+    warm = getattr(mod, 'WARM', None)
+    if warm is not None:
+        warm()
+    ok, t = core.rerun_unit_for(mod, core.totuple(case['unit']), case['expect_signature'], case['expect_key'])
+    if not ok:
+        return []
+    func, kind = case['expect_signature'].split('|', 1)
+    return [core.Failure(func, kind, case['expect_key'], case, t[3] if t else '')]
+
+
 def main(argv):
     if not argv:
         print(__doc__)
@@ -21,8 +34,11 @@ def main(argv):
             body = json.load(open(path))
             mod = load(body['property'])
             core.load_known(body['property'])
-            fails = mod.replay(body['case'])
-            fails2 = mod.replay(body['case'])
+            if body['case'].get('oracle') == '__unit__':
+                fails = fails2 = replay_unit(mod, body)
+            else:
+                fails = mod.replay(body['case'])
+                fails2 = mod.replay(body['case'])
             s1, s2 = sorted(set(f.sig for f in fails)), sorted(set(f.sig for f in fails2))
             if s1 != s2:
                 print('HARNESS-ERROR non-deterministic replay %s: %s vs %s' % (path, s1, s2))
